@@ -791,7 +791,23 @@ write_constant_value (const gchar *namespace,
       break;
     case GI_TYPE_TAG_UTF8:
     case GI_TYPE_TAG_FILENAME:
-      xml_printf (file, "%s", value->v_string);
+      {
+        /* Written inside an attribute value: tab, newline and carriage
+         * return have to be character references, otherwise XML attribute
+         * value normalization turns them into spaces when read back. */
+        gchar *escaped = g_markup_escape_text (value->v_string, -1);
+        const gchar *p;
+
+        for (p = escaped; *p; p++)
+          switch (*p)
+            {
+            case '\t': fputs ("&#x9;", file->file); break;
+            case '\n': fputs ("&#xA;", file->file); break;
+            case '\r': fputs ("&#xD;", file->file); break;
+            default: fputc (*p, file->file); break;
+            }
+        g_free (escaped);
+      }
       break;
     default:
       g_assert_not_reached ();
